@@ -43,6 +43,11 @@ def scenarios():
     # an earlier, unrecorded (failed) execution left <name>.task.T behind and the clock yields T again
     out.append({"name": "run-seq-leftover-same-clock", "cmd": "run", "jobs": None, "git": "none", "prior": False, "leftover_clock": 1_610_000_000})
     out.append({"name": "run-j3-leftover-same-clock", "cmd": "run", "jobs": 3, "git": "none", "prior": True, "leftover_clock": 1_610_000_000})
+    # a command that exits 0 after having moved away / deleted / replaced by a link its own output directory: there is no
+    # finished output in the version's directory, so there must be no version
+    out.append({"name": "run-seq-task-moves-its-output-away", "cmd": "run", "jobs": None, "git": "none", "prior": True, "output_gone": {"//a/b:ok3": "move", "//a:ok2": "delete"}, "complete_only": True})
+    out.append({"name": "run-j3-task-removes-its-output", "cmd": "run", "jobs": 3, "git": "none", "prior": False, "output_gone": {"//a/b:ok3": "delete", "//:ok1": "move"}, "complete_only": True})
+    out.append({"name": "run-seq-task-replaces-its-output-by-a-link", "cmd": "run", "jobs": None, "git": "none", "prior": False, "output_gone": {"//a/b:ok3": "replace-with-link"}, "complete_only": True})
     out.append({"name": "restore", "cmd": "restore", "jobs": None, "git": "none", "prior": True})
     out.append({"name": "restore-after-killed-restore", "cmd": "restore", "jobs": None, "git": "none", "prior": True, "killed_restore_first": True})
     out.append({"name": "archive", "cmd": "archive", "jobs": None, "git": "none", "prior": True})
@@ -59,7 +64,9 @@ def build(scroot, scn):
              T("a", "ok2", "run_experiment", ["//:ok1"], par=par, options={"only": False}),
              T("a", "bad", "run_experiment", par=par, args=["z"]),
              T("a/b", "killed", "run_experiment", par=par),
-             T("a/b", "ok3", "run_experiment", par=par, args=[7]),
+             # (without arguments when it is the task that makes its own output directory disappear: nothing but the
+             # version row is then written after the command has exited)
+             T("a/b", "ok3", "run_experiment", par=par, args=([] if "//a/b:ok3" in (scn.get("output_gone") or {}) else [7])),
              T("", "top", "group", ["//a:ok2", "//a:bad", "//a/b:killed", "//a/b:ok3"])]
     scripts = {}
     for t in tasks:
@@ -68,6 +75,8 @@ def build(scroot, scn):
         steps = [["out", 1, realrun.b64(OUT_PAYLOAD)], ["out", 2, realrun.b64(ERR_PAYLOAD)], ["file", "result/data.bin", realrun.b64(b"R" * 5000)], ["marker"]]
         scripts[t["id"]] = {"steps": steps}
     scripts["//a:bad"]["exit"] = 7
+    for tid, how in (scn.get("output_gone") or {}).items():
+        scripts[tid]["steps"].append(["rmout", how])
     scripts["//a/b:killed"]["signal"] = 9
     pr = realrun.Project(scroot, tasks, scripts, disable_git=(scn["git"] in ("none", "disabled-repo")))
     if scn["git"] != "none":
@@ -369,10 +378,13 @@ def crash_case(scn, k, nth, pr, extra, sc):
             # crash-free run: exactly the experiments that exited 0 were recorded
             rows = pr.rows()
             added = sorted(r0[0] for r0 in rows if (r0[0], r0[1]) not in {(x[0], x[1]) for x in rows_before})
-            want = sorted(["//:ok1", "//a:ok2", "//a/b:ok3"])
+            want = sorted(t0 for t0 in ["//:ok1", "//a:ok2", "//a/b:ok3"] if t0 not in (scn.get("output_gone") or {}))
+            # (a dependent of a task whose output directory vanished is skipped with it)
+            if "//:ok1" in (scn.get("output_gone") or {}):
+                want = [t0 for t0 in want if t0 != "//a:ok2"]
             bump("c06_complete_run_checks")
             if added != want:
-                out["violations"].append({"key": "C06:recorded-set-differs-from-successful-executions", "msg": "rows added for %s; executions that exited 0: %s" % (added, want), "witness": W})
+                out["violations"].append({"key": "C06:recorded-set-differs-from-successful-executions", "msg": "rows added for %s; executions that exited 0 and left their output in place: %s" % (added, want), "witness": W})
         out["sample"] = {"scenario": scn["name"], "crash_at": k, "site": site, "crashed": crashed, "rows_after": pr.rows() if not isinstance(pr.rows(), str) else None}
     return out
 
